@@ -223,7 +223,11 @@ pub fn run_case_with(i: u64, rng: &mut Rng, rep: &mut Report, verbose: bool, for
                 match st.next().await {
                     Ok(Some(e)) => items.push(item_out(&e)),
                     Ok(None) => break,
-                    Err(e) => return Err(format!("next:{}:after {} items", world::err_class(&e), items.len())),
+                    Err(e) => {
+                        // the search failed before its end: finish() must say so (rc 88), not hand out an earlier page's result
+                        let r = st.finish().await;
+                        return Err(format!("next:{}:finish-rc={}:after {} items", world::err_class(&e), r.rc, items.len()));
+                    }
                 }
             }
             let r = st.finish().await;
@@ -264,6 +268,9 @@ pub fn run_case_with(i: u64, rng: &mut Rng, rep: &mut Report, verbose: bool, for
                 let got: usize = e.rsplit("after ").next().and_then(|x| x.split(' ').next()).and_then(|x| x.parse().ok()).unwrap_or(usize::MAX);
                 let entries_only = setup.chain != 0;
                 let want = if entries_only { want_entries } else { want_items };
+                if !e.contains(":finish-rc=88:") {
+                    rep.violation(format!("{}:finish-after-connection-loss-reports-an-earlier-page's-result", sigp), format!("{}; the server closed after page {} of {}", e, k, pages.len()), replay.clone());
+                }
                 if got != want {
                     rep.violation(format!("{}:items-lost-or-invented-before-connection-loss", sigp), format!("{} items returned before the error, {} were delivered", got, want), replay.clone());
                 }
